@@ -51,6 +51,42 @@ var properties = []propCheck{
 	},
 }
 
+func init() {
+	properties = append(properties,
+		propCheck{
+			ID: "C37", Level: "exploration",
+			Rule: "one evaluation = one simulated run: 2-5 connections (C37a: ProcessList API calls following the handler's calling contract, the tape choosing whose call comes next and when kills arrive; C37b: whole server in the simulated network); non-trivial = at least two connections interleaved; distinct = distinct hash of the event-kind sequence",
+			Real: []string{"sqle.ProcessList", "sql.StatusVariables (Threads_connected, Threads_running)", "context cancellation wiring"},
+			Stub: []string{"the caller side of the handler contract (harness)"},
+			Assumptions: []string{"every ProcessList method is a single critical section, so interleaving at call boundaries is complete for the API-level check",
+				"connections follow the calling contract of server/handler.go and server/context.go (no RemoveConnection while the same connection's query is in flight)"},
+			Subs: []subCheck{
+				{ID: "C37a", World: "unitsim", Quick: 60000, Thorough: 3000000, QuickCap: 60, ThoroughCap: 900, Probes: []string{"kill-hit-running-work", "kill"}},
+			},
+		},
+		propCheck{
+			ID: "C45", Level: "exploration",
+			Rule: "one evaluation = one simulated run: 2-4 tasks redact generated statements and single lexemes through one shared Mapping, the scheduler interleaving them at the RUnlock->Lock upgrade window; non-trivial = the upgrade window actually parked a goroutine; distinct = distinct hash of the event-kind sequence",
+			Real: []string{"sqlredact.Mapping", "sqlredact.RedactSQLForTraceInto", "vitess tokenizer and parser"},
+			Stub: []string{"goroutine scheduling at the upgrade window (simulator)"},
+			Assumptions: []string{"only the concurrency clause and a sampled grammar are decided; the all-inputs clause of C45 is sampled as a by-product, not claimed exhaustively"},
+			Subs: []subCheck{
+				{ID: "C45", World: "unitsim", Quick: 60000, Thorough: 3000000, QuickCap: 60, ThoroughCap: 900, Probes: []string{"upgrade-window-opened", "keyword-name-unparseable"}},
+			},
+		},
+		propCheck{
+			ID: "C48", Level: "exploration",
+			Rule: "one evaluation = one generated program: a tree (depth <= 3) of errgroups, plain and WithContext, whose functions run through errguard.Go and return nil, return a unique error or panic with one of nine kinds of value; the scheduler decides the completion order by releasing one waiting function at a time; non-trivial = at least two functions released; distinct = distinct hash of the release-kind sequence",
+			Real: []string{"errguard.Go", "golang.org/x/sync/errgroup"},
+			Stub: []string{"completion order (simulator releases functions one at a time inside a synctest bubble)"},
+			Assumptions: []string{"a panic that escaped errguard would kill the worker process; the driver re-runs that run alone and reports the death as the violation"},
+			Subs: []subCheck{
+				{ID: "C48", World: "unitsim", Quick: 100000, Thorough: 5000000, QuickCap: 60, ThoroughCap: 900, Probes: []string{"panic-kind-5", "panic-kind-6", "panic-kind-7"}},
+			},
+		},
+	)
+}
+
 // cmdSelftest: every sub-check's first N runs are executed in fresh processes
 // at GOMAXPROCS 1, 4 and 16 (and twice at 16); the per-run digests of the
 // complete event logs must be identical. A difference is exit 2.
